@@ -14,6 +14,9 @@ os.makedirs(dst, exist_ok=True)
 for f in os.listdir(src):
     if f.endswith('.log'):
         continue
+    if os.path.isdir(os.path.join(src, f)):
+        shutil.copytree(os.path.join(src, f), os.path.join(dst, f), dirs_exist_ok=True)
+        continue
     shutil.copy(os.path.join(src, f), os.path.join(dst, f))
 notes = open(os.path.join(src, 'notes.md')).read() if os.path.exists(os.path.join(src, 'notes.md')) else ''
 demo = open(os.path.join(src, 'demo.txt')).read()
